@@ -5,14 +5,15 @@ Fragment: leaves, `allOf` (an *unguarded* position: the same value is visited ag
 position: a strictly smaller value is visited), `$ref`, and one bit `own` = "the schema carries a keyword of
 its own" (which makes `Schema.IsEmpty` answer at once).
 
-The model follows `visitJSON`: it first evaluates `schema.IsEmpty()`, which itself recurses through
-`items` and `allOf` of schemas without own keywords and has no visited set — the differential run showed
-that the design prototype, which left this call out, did not describe the code: `L: {items: {$ref: L}}`
-overflows the stack for every value although its cycle is guarded (finding F-C10-5).
-  * isEmpty_mono / visit_mono_ok / visit_mono_k — more fuel never changes a decided result
-  * unguarded_diverges   — `A: {nullable, allOf: [{$ref: A}]}` diverges for EVERY fuel and value (finding #6)
-  * emptiness_diverges   — `L: {items: {$ref: L}}` diverges for every fuel and value (F-C10-5)
-  * guarded_terminates   — `L: {nullable, items: {$ref: L}}` is decided for every value, explicit fuel
+History: the design prototype left `Schema.IsEmpty` out; the differential run showed that on the tree of
+that time `visitJSON` called it first and it recursed through `items`/`allOf` of schemas without own
+keywords (F-C10-5). Since commit 08457da `visitJSON` tests `!schema.hasSubSchemas() && schema.IsEmpty()`:
+`IsEmpty` is only evaluated on schemas without sub-schemas, where it cannot recurse, so `visit` no longer
+depends on it. `isEmpty` stays here as the model of the function itself (`isEmpty_diverges` is still a fact
+about `Schema.IsEmpty`, which is no longer on the traffic path).
+  * visit_mono_ok / visit_mono_k — more fuel never changes a decided result
+  * unguarded_diverges   — `A: {allOf: [{$ref: A}]}` (with or without own keywords) diverges for EVERY fuel and value (finding #6)
+  * guarded_terminates   — `L: {items: {$ref: L}}`, with or without own keywords, is decided for every value, explicit fuel
   * executable side for the driver: `envOf`, `hasUnguardedCycle`
 -/
 namespace KinModel.NoPanic.Recursion
@@ -36,12 +37,6 @@ inductive Res | ok (b : Bool) | diverge      -- `diverge` = out of fuel (in Go: 
   | .ok false, _ => .ok false
   | .ok true, r => r
 
-/-- evaluate `a` for termination only, then `b` (the result of `IsEmpty` only selects a shortcut that
-    gives the same verdict in this fragment) -/
-@[macro_inline] def Res.seq : Res → Res → Res
-  | .diverge, _ => .diverge
-  | .ok _, r => r
-
 mutual
 /-- `Schema.IsEmpty`: own keyword → false at once; else items, then allOf, first non-empty answers -/
 def isEmpty (Γ : Env) : Nat → S → Res
@@ -57,17 +52,24 @@ def isEmptyAll (Γ : Env) : Nat → List S → Res
   | fuel + 1, s :: ss => (isEmpty Γ fuel s).and (isEmptyAll Γ fuel ss)
 end
 
+/-- `hasSubSchemas` -/
+def hasSub : S → Bool
+  | .node _ allOf items => !allOf.isEmpty || items.isSome
+  | _ => false
+
 mutual
+/-- `visitJSON`: the `IsEmpty` shortcut is taken only for schemas without sub-schemas (`!hasSubSchemas() &&
+    IsEmpty()`), where it gives the verdict the general path gives in this fragment (accept), so it does not
+    appear as a separate branch; in particular `IsEmpty` is never evaluated on a schema with sub-schemas -/
 def visit (Γ : Env) : Nat → S → J → Res
   | 0, _, _ => .diverge
   | _ + 1, .leaf a, v => (match v with | .num _ => .ok a | .arr _ => .ok true)
   | fuel + 1, .ref x, v => (match Γ x with | none => .ok false | some s => visit Γ fuel s v)
-  | fuel + 1, .node own allOf items, v =>
-    (isEmpty Γ fuel (.node own allOf items)).seq
-      ((visitAll Γ fuel allOf v).and
-        (match v, items with
-         | .arr xs, some s => visitItems Γ fuel s xs
-         | _, _ => .ok true))
+  | fuel + 1, .node _ allOf items, v =>
+    (visitAll Γ fuel allOf v).and
+      (match v, items with
+       | .arr xs, some s => visitItems Γ fuel s xs
+       | _, _ => .ok true)
 def visitAll (Γ : Env) : Nat → List S → J → Res
   | _, [], _ => .ok true
   | 0, _ :: _, _ => .diverge
@@ -88,49 +90,10 @@ theorem andMono (a a' c c' : Res) (b : Bool) (h1 : ∀ x, a = .ok x → a' = .ok
     | false => simpa [Res.and] using h
     | true => simp only [Res.and] at h ⊢; exact h2 b h
 
-theorem seqMono (a a' c c' : Res) (b : Bool) (h1 : ∀ x, a = .ok x → a' = .ok x) (h2 : ∀ x, c = .ok x → c' = .ok x)
-    (h : a.seq c = .ok b) : a'.seq c' = .ok b := by
-  cases a with
-  | diverge => simp [Res.seq] at h
-  | ok x => rw [h1 x rfl]; simp only [Res.seq] at h ⊢; exact h2 b h
-
-theorem isEmpty_mono (Γ : Env) : ∀ fuel,
-    (∀ s b, isEmpty Γ fuel s = .ok b → isEmpty Γ (fuel + 1) s = .ok b) ∧
-    (∀ ss b, isEmptyAll Γ fuel ss = .ok b → isEmptyAll Γ (fuel + 1) ss = .ok b) := by
-  intro fuel
-  induction fuel with
-  | zero =>
-    refine ⟨?_, ?_⟩
-    · intro s b h; simp [isEmpty] at h
-    · intro ss b h; cases ss <;> simp [isEmptyAll] at h ⊢; exact h
-  | succ n ih =>
-    obtain ⟨ihE, ihA⟩ := ih
-    refine ⟨?_, ?_⟩
-    · intro s b h
-      cases s with
-      | leaf a => simpa [isEmpty] using h
-      | ref x =>
-        simp only [isEmpty] at h ⊢
-        cases hg : Γ x with
-        | none => simpa [hg] using h
-        | some s' => simp only [hg] at h ⊢; exact ihE s' b h
-      | node own allOf items =>
-        simp only [isEmpty] at h ⊢
-        cases own with
-        | true => simpa using h
-        | false =>
-          simp only [Bool.false_eq_true, if_false] at h ⊢
-          refine andMono _ _ _ _ b ?_ (fun x hx => ihA allOf x hx) h
-          intro x hx
-          cases items with
-          | none => simpa using hx
-          | some s' => simp only at hx ⊢; exact ihE s' x hx
-    · intro ss b h
-      cases ss with
-      | nil => simpa [isEmptyAll] using h
-      | cons s ss =>
-        simp only [isEmptyAll] at h ⊢
-        exact andMono _ _ _ _ b (fun x hx => ihE s x hx) (fun x hx => ihA ss x hx) h
+/-- the shortcut is sound to leave out: on a schema without sub-schemas `IsEmpty` answers with fuel 1 -/
+theorem isEmpty_no_sub (Γ : Env) (own : Bool) (fuel : Nat) :
+    isEmpty Γ (fuel + 1) (.node own [] none) = .ok (!own) := by
+  cases own <;> simp [isEmpty, isEmptyAll, Res.and]
 
 theorem visit_mono_ok (Γ : Env) :
     (∀ fuel s v b, visit Γ fuel s v = .ok b → visit Γ (fuel + 1) s v = .ok b) ∧
@@ -160,9 +123,7 @@ theorem visit_mono_ok (Γ : Env) :
           | some s' => simp only [hg] at h ⊢; exact ihV s' v b h
         | node own allOf items =>
           simp only [visit] at h ⊢
-          refine seqMono _ _ _ _ b (fun x hx => (isEmpty_mono Γ n).1 _ x hx) ?_ h
-          intro y hy
-          refine andMono _ _ _ _ y (fun x hx => ihA allOf v x hx) ?_ hy
+          refine andMono _ _ _ _ b (fun x hx => ihA allOf v x hx) ?_ h
           intro x hx
           cases v with
           | num k => simpa using hx
@@ -193,73 +154,66 @@ theorem visit_mono_k (Γ : Env) (k : Nat) :
     exact ⟨fun f s v b h => (visit_mono_ok Γ).1 (f + k) s v b (ih.1 f s v b h),
            fun f s xs b h => (visit_mono_ok Γ).2.2 (f + k) s xs b (ih.2 f s xs b h)⟩
 
-/-- finding #6: the unguarded self-reference `A: {nullable: true, allOf: [{$ref: A}]}` -/
-def Γ6 : Env := fun x => if x = 0 then some (.node true [.ref 0] none) else none
+/-- finding #6: the unguarded self-reference `A: {allOf: [{$ref: A}]}`, with (`own`) or without a keyword of its own -/
+def Γ6 (own : Bool) : Env := fun x => if x = 0 then some (.node own [.ref 0] none) else none
 
-theorem unguarded_diverges (v : J) : ∀ (fuel : Nat),
-    visit Γ6 fuel (.ref 0) v = .diverge ∧ visit Γ6 fuel (.node true [.ref 0] none) v = .diverge ∧
-    visitAll Γ6 fuel [.ref 0] v = .diverge
+theorem unguarded_diverges (own : Bool) (v : J) : ∀ (fuel : Nat),
+    visit (Γ6 own) fuel (.ref 0) v = .diverge ∧ visit (Γ6 own) fuel (.node own [.ref 0] none) v = .diverge ∧
+    visitAll (Γ6 own) fuel [.ref 0] v = .diverge
   | 0 => by simp [visit, visitAll]
   | fuel + 1 => by
-    obtain ⟨ih1, ih2, ih3⟩ := unguarded_diverges v fuel
+    obtain ⟨ih1, ih2, ih3⟩ := unguarded_diverges own v fuel
     refine ⟨?_, ?_, ?_⟩
     · simpa [visit, Γ6] using ih2
-    · simp only [visit, ih3]
-      cases isEmpty Γ6 fuel (.node true [.ref 0] none) <;> rfl
+    · simp only [visit, ih3]; rfl
     · simp only [visitAll, ih1]; rfl
 
-/-- F-C10-5: `L: {items: {$ref: L}}` — the cycle is guarded, but `IsEmpty` follows it without end -/
-def ΓE : Env := fun x => if x = 0 then some (.node false [] (some (.ref 0))) else none
+/-- `L: {items: {$ref: L}}` -/
+def ΓL (own : Bool) : Env := fun x => if x = 0 then some (.node own [] (some (.ref 0))) else none
 
+/-- `Schema.IsEmpty` itself still follows the cycle of `L: {items: {$ref: L}}` without end (it has no visited
+    set); since 08457da `visitJSON` does not evaluate it on such a schema -/
 theorem isEmpty_diverges : ∀ (fuel : Nat),
-    isEmpty ΓE fuel (.ref 0) = .diverge ∧ isEmpty ΓE fuel (.node false [] (some (.ref 0))) = .diverge
+    isEmpty (ΓL false) fuel (.ref 0) = .diverge ∧ isEmpty (ΓL false) fuel (.node false [] (some (.ref 0))) = .diverge
   | 0 => by simp [isEmpty]
   | fuel + 1 => by
     obtain ⟨ih1, ih2⟩ := isEmpty_diverges fuel
     refine ⟨?_, ?_⟩
-    · simpa [isEmpty, ΓE] using ih2
+    · simpa [isEmpty, ΓL] using ih2
     · simp only [isEmpty, Bool.false_eq_true, if_false, ih1]; rfl
-
-theorem emptiness_diverges (v : J) : ∀ (fuel : Nat), visit ΓE fuel (.ref 0) v = .diverge
-  | 0 => by simp [visit]
-  | 1 => by simp [visit, ΓE]
-  | fuel + 2 => by
-    simp only [visit, ΓE, if_true]
-    rw [(isEmpty_diverges fuel).2]; rfl
-
-/-- a guarded recursive schema with a keyword of its own, `L: {nullable: true, items: {$ref: L}}` -/
-def ΓL : Env := fun x => if x = 0 then some (.node true [] (some (.ref 0))) else none
 
 mutual
 def fuelFor : J → Nat
-  | .num _ => 3
-  | .arr xs => 3 + fuelForL xs
+  | .num _ => 2
+  | .arr xs => 2 + fuelForL xs
 def fuelForL : List J → Nat
   | [] => 0
   | x :: xs => 1 + fuelFor x + fuelForL xs
 end
 
 mutual
-theorem guarded_terminates : ∀ (v : J), visit ΓL (fuelFor v) (.ref 0) v = .ok true
-  | .num n => by simp [fuelFor, visit, ΓL, visitAll, isEmpty, Res.and, Res.seq]
+theorem guarded_terminates (own : Bool) : ∀ (v : J), visit (ΓL own) (fuelFor v) (.ref 0) v = .ok true
+  | .num n => by simp [fuelFor, visit, ΓL, visitAll, Res.and]
   | .arr xs => by
-    have h := guarded_items xs
+    have h := guarded_items own xs
     simp only [fuelFor]
-    rw [show 3 + fuelForL xs = (fuelForL xs + 1) + 1 + 1 by omega]
-    simp only [visit, ΓL, if_true, isEmpty, Res.seq]
-    have h' := (visit_mono_ok ΓL).2.2 _ _ _ _ h
-    simp only [visitAll, Res.and]
-    exact h'
-theorem guarded_items : ∀ (xs : List J), visitItems ΓL (fuelForL xs) (.ref 0) xs = .ok true
+    rw [show 2 + fuelForL xs = (fuelForL xs + 1) + 1 by omega]
+    simp only [visit, ΓL, if_true]
+    cases hx : fuelForL xs with
+    | zero =>
+      have : xs = [] := by cases xs <;> simp_all [fuelForL]
+      subst this; simp [visitAll, visitItems, Res.and]
+    | succ g => rw [hx] at h; simp only [visitAll, Res.and]; exact h
+theorem guarded_items (own : Bool) : ∀ (xs : List J), visitItems (ΓL own) (fuelForL xs) (.ref 0) xs = .ok true
   | [] => by simp [visitItems]
   | x :: xs => by
-    have h1 := guarded_terminates x
-    have h2 := guarded_items xs
+    have h1 := guarded_terminates own x
+    have h2 := guarded_items own xs
     simp only [fuelForL]
     rw [show 1 + fuelFor x + fuelForL xs = (fuelFor x + fuelForL xs) + 1 by omega]
     simp only [visitItems]
-    have e1 := (visit_mono_k ΓL (fuelForL xs)).1 _ _ _ _ h1
-    have e2 := (visit_mono_k ΓL (fuelFor x)).2 _ _ _ _ h2
+    have e1 := (visit_mono_k (ΓL own) (fuelForL xs)).1 _ _ _ _ h1
+    have e2 := (visit_mono_k (ΓL own) (fuelFor x)).2 _ _ _ _ h2
     rw [Nat.add_comm (fuelForL xs) (fuelFor x)] at e2
     rw [e1, e2]; rfl
 end
@@ -288,7 +242,7 @@ def reachesUnguarded (defs : List S) (target : Nat) : Nat → Nat → Bool
 def hasUnguardedCycle (defs : List S) : Bool :=
   (List.range defs.length).any (fun x => reachesUnguarded defs x defs.length x)
 
-/-- does `IsEmpty` fail to terminate on some definition (decided with the given fuel) -/
+/-- does `Schema.IsEmpty` fail to terminate on some definition (decided with the given fuel): coverage label only -/
 def hasEmptinessCycle (defs : List S) (fuel : Nat) : Bool :=
   defs.any (fun s => isEmpty (envOf defs) fuel s = .diverge)
 
